@@ -597,7 +597,7 @@ class Lower:
         return ast.FormattedValue(value=self.expr(n.value), conversion=conv, format_spec=fs)
 
     def e_CondExprNode(self, n):
-        return ast.IfExp(test=self.expr(n.test), body=self.expr(n.true_val), orelse=self.expr(n.false_val))
+        return ast.IfExp(test=self.expr(getattr(n, "condition", None) if hasattr(n, "condition") else n.test), body=self.expr(n.true_val), orelse=self.expr(n.false_val))
 
     def e_LambdaNode(self, n):
         return ast.Lambda(args=self._args(n.args, getattr(n, 'star_arg', None), getattr(n, 'starstar_arg', None)),
@@ -888,6 +888,9 @@ class ClassInfo:
         self.decorators = []
 
 
+METHOD_HOOK = None      # set by core: second-chance normal form of a method body
+
+
 class Program:
     """All modules of the repository, with a class table merged from .pyx and .pxd."""
 
@@ -957,7 +960,7 @@ class Program:
         for c in self.mro(cls):
             f = self.classes[c].methods.get(meth)
             if f is not None:
-                return c, f
+                return c, (METHOD_HOOK(f) if METHOD_HOOK is not None else f)
         return None, None
 
     def all_attrs(self, cls):
